@@ -30,7 +30,8 @@ RULE = ("cp / tucker / tensor_train with 1-4 modes of size 1-4 and rank 1-3 (emb
         "smoothed and pruned by the library); compiled under random (fold, optimize, semiring): the compiled value at "
         "every index tuple / assignment vs the documented contraction recomputed from the factor tables (each table = "
         "Lean evaluation of the input layer whose scope is that variable, core / transition tables = Lean evaluation "
-        "of the weight parameters) vs the Lean evaluation of the whole template circuit; per-variable arguments "
+        "of the weight parameters) vs the Lean evaluation of the whole template circuit vs the model's own template "
+        "builders (Model/Templates.lean, the objects of the theorems) fed with the same factors; per-variable arguments "
         "checked on the input layer of that variable id; logic: truth table and model count by enumeration; "
         "non-trivial = distinct template configuration")
 
@@ -74,6 +75,18 @@ class Tables:
     def param(self, pg) -> tuple[list[int], list]:
         shape, _sym, vals = self.d.param(ser.ser_param(pg, self.mode), self.theta)
         return shape, self.lift(vals)
+
+    def enc(self, v):
+        if isinstance(v, list):
+            return [self.enc(x) for x in v]
+        if isinstance(v, GQ):
+            v = (v.re, v.im)
+        return leanmodel.enc_num(v, self.mode)
+
+    def template(self, req: dict, X):
+        """The model's own template circuit (lean/CirkitModel/Model/Templates.lean) evaluated on the rows X."""
+        r = self.d.call({"cmd": "template", **req, "X": [[int(v) for v in x] for x in X]})
+        return [self.lift(leanmodel.dec_nested(o, self.mode))[0] for o in r["ok"]]
 
     def close(self):
         for c in self.cids:
@@ -119,6 +132,10 @@ def lift(v):
     if isinstance(v, (list, tuple)):
         return [lift(x) for x in v]
     return v
+
+
+def transpose(t):
+    return [[t[a][r] for a in range(len(t))] for r in range(len(t[0]))]
 
 
 def num_abs(v):
@@ -370,7 +387,10 @@ def oracle_tensor_factorization(scen, sc, T: Tables, X):
                 vals.append([f_cp(A, ww, x) for x in X])
             else:
                 vals.append([f_tucker(A, ww, rank, x) for x in X])
-        return vals
+        A = [table(by_var[j]) for j in range(n)]
+        req = {"kind": kind, "rank": rank, "factors": [T.enc(transpose(A[j])) for j in range(n)]}
+        req["weights" if kind == "cp" else "core"] = T.enc(list(w))
+        return vals + [req]
     # tensor train: first / last embeddings have `rank` units; inner mode i has `rank` embeddings in layer order
     by_var = {}
     for sl in ins:
@@ -379,7 +399,7 @@ def oracle_tensor_factorization(scen, sc, T: Tables, X):
         raise Bad("template-structure", f"input layers over variables {sorted(by_var)}, expected 0..{n - 1}")
     order = {id(sl): i for i, sl in enumerate(sc.layers)}
     vals = []
-    for absolute in (False, True):
+    for absolute in (True, False):
         first = table(by_var[0][0], absolute)
         last = table(by_var[n - 1][0], absolute)
         inner = []
@@ -388,8 +408,10 @@ def oracle_tensor_factorization(scen, sc, T: Tables, X):
             if len(embs) != rank:
                 raise Bad("template-structure", f"mode {i} has {len(embs)} embedding layers, expected rank={rank}")
             inner.append([table(e, absolute) for e in embs])
-        vals.append([f_tt(first, inner, last, rank, x) for x in X])
-    return vals
+        vals.insert(0, [f_tt(first, inner, last, rank, x) for x in X])
+    req = {"kind": "tt", "rank": rank, "first": T.enc(transpose(first)), "last": T.enc(transpose(last)),
+           "inner": [[T.enc(transpose(e)) for e in mode] for mode in inner]}
+    return vals + [req]
 
 
 def hmm_walk(sc):
@@ -440,7 +462,10 @@ def oracle_pgm(scen, sc, T: Tables, X):
         for absolute in (False, True):
             col = {v: T.layer(by_var[v], [x[v] for x in X]) for v in range(n)}
             vals.append([prod((num_abs(col[v][b][0]) if absolute else col[v][b][0]) for v in range(n)) for b in range(len(X))])
-        return vals
+        req = None
+        if all(domain_of(by_var[v]) is not None for v in range(n)):
+            req = {"kind": "ff", "factors": [T.enc([row[0] for row in T.layer(by_var[v], list(range(domain_of(by_var[v]))))]) for v in range(n)]}
+        return vals + [req]
     steps = hmm_walk(sc)
     seq = [var_of(e) for _, e in steps]
     if seq != list(scen["ordering"]):
@@ -463,7 +488,13 @@ def oracle_pgm(scen, sc, T: Tables, X):
             trans = [[[ab(v) for v in row] for row in m] for m in mats[1:]]
             out.append(f_hmm(pi, trans, emis, None))
         vals.append(out)
-    return vals
+    req = None
+    if all(domain_of(e) is not None for _, e in steps):
+        by_var = {var_of(e): e for _, e in steps}
+        req = {"kind": "hmm", "K": K, "ordering": list(scen["ordering"]),
+               "emissions": [T.enc(transpose(T.layer(by_var[v], list(range(domain_of(by_var[v])))))) for v in range(n)],
+               "transitions": [T.enc(m_) for m_ in mats]}
+    return vals + [req]
 
 
 def truth(scen, x):
@@ -568,10 +599,11 @@ def run_scenario(run: Run, scen: dict, rng: random.Random):
         m = mc.eval(theta, X)
         # 1. the documented formula from the factor tables
         try:
+            req = None
             if kind in ("cp", "tucker", "tt"):
-                want, mag = oracle_tensor_factorization(scen, sc, T, X)
+                want, mag, req = oracle_tensor_factorization(scen, sc, T, X)
             elif kind in ("hmm", "ff"):
-                want, mag = oracle_pgm(scen, sc, T, X)
+                want, mag, req = oracle_pgm(scen, sc, T, X)
             else:
                 want = [Fraction(1) if truth(scen, x) else Fraction(0) for x in X]
                 if mc.mode != "rat":
@@ -597,6 +629,30 @@ def run_scenario(run: Run, scen: dict, rng: random.Random):
                 run.violation("model-formula-mismatch", dict(scen_x, row=b),
                               f"{kind}: the model evaluates the template circuit to {mv} at {X[b]}, the formula gives {want[b]}")
                 return
+        # 2b. the model's template builder (the object of the C20 theorems) on the same factors = the real circuit
+        if req is not None:
+            try:
+                tv = T.template(req, X)
+            except leanmodel.ModelError as e:
+                if "copies" in str(e) or "large" in str(e):
+                    run.feature("model_template_too_large", True)
+                    tv = None
+                else:
+                    run.violation("model-template", scen_x, f"the model's template builder rejects the factors: {e}",
+                                  no_failing_input=True, broken="correspondence: Model/Templates.lean vs cirkit/templates")
+                    return
+            if tv is not None:
+                for b in range(len(X)):
+                    mv = lift(m[b][0][0]) if mc.mode == "gauss" else m[b][0][0]
+                    same = (tv[b] == mv) if mc.mode in ("rat", "gauss") else close_enough(tv[b], mv, mag[b], mc.mode)[0]
+                    run.evaluations += 1
+                    if not same:
+                        # the formula agreed with the real circuit above, so this is a break of the tie, with the input at hand
+                        run.violation("model-template-mismatch", dict(scen_x, row=b),
+                                      f"{kind}: the model's template evaluates to {tv[b]} at {X[b]}, the real template circuit (model evaluation) to {mv}",
+                                      no_failing_input=True, broken="correspondence: Model/Templates.lean builders vs the circuits built by cirkit/templates")
+                        return
+                run.feature("model_template_compared", kind)
         # 3. logic: model count
         if kind == "logic":
             vs = sorted(sc.scope)
